@@ -353,6 +353,24 @@ static void __attribute__((noinline)) run_boxes(vh_rng* r, int nops) {
     }
     vh_count("box_container_operations");
   }
+  if (vh_chance(r, 33)) {
+    /* not deleted by hand: dropped, and reclaimed by the collector together with the boxes' objects (whichever the
+       sweep takes first).  Nothing may be finalised twice -- the ledger of the owned objects reports that -- and
+       whatever has been finalised by the end of the pressure phase has been finalised once. */
+    c = NULL;
+    int64_t junk0 = box_next_id;
+    for (int g = 0; g < 3000; g++) { var junk = new(PNode, $I(box_next_id++)); junk = NULL; }
+    (void)junk0;
+    vh_evals(n);
+    for (int i = 0; i < (kind < 2 ? n : 40); i++) {
+      if (ids[i] && mo_state[ids[i]] != MO_CONSTRUCTED && mo_state[ids[i]] != MO_DESTRUCTED && mo_state[ids[i]] != MO_RELEASED) {
+        vh_violation("C05:box:owned-object-in-an-impossible-state-after-collection", "owned object id %" PRId64 " is in state %d", ids[i], mo_state[ids[i]]);
+      }
+    }
+    vh_count("box_containers_left_to_the_collector");
+    vh_nontrivial();
+    return;
+  }
   del(c);
   if (kind < 2) { for (int i = 0; i < n; i++) { box_expect(ids[i], MO_DESTRUCTED, "owned-object-not-finalised-when-container-deleted", "del(container)"); } }
   else { for (int i = 0; i < 40; i++) { if (ids[i]) { box_expect(ids[i], MO_DESTRUCTED, "owned-object-not-finalised-when-container-deleted", "del(container)"); } } }
